@@ -347,6 +347,18 @@ class OrderedMultiDict(dict, MutableMappingSequence):
     def copy(self):
         return type(self)(self)
 
+    def __reduce__(self):
+        # Used by copy.copy(), copy.deepcopy() and pickle.  The default
+        # reduction for dict subclasses replays the pairs through
+        # __setitem__() (which drops duplicate keys) and shares or loses
+        # the item list, so rebuild from the list of pairs instead.
+        state = {
+            k: v
+            for k, v in vars(self).items()
+            if k != "_OrderedMultiDict__items"
+        }
+        return type(self), (list(self.__items),), state or None
+
     def insert(self, index: int, *args) -> None:
         """Inserts at the index given by *index*.
 
